@@ -764,3 +764,8 @@ def b_native(B):
         if phantom:
             B.case(("phantom", ns, nb, workers, kf), False, detail=phantom[:3], inputs={"kind": "phantom_batch", "ns": ns, "nbatch": nb})
         B.case((ns, nb, workers, kf), not other, detail=other[:4], inputs={"kind": "destripe", "ns": ns, "nbatch": nb, "workers": list(workers), "k_filter": kf})
+
+
+# ----------------------------------------------------------------------------- contracts of dependencies this property rests on (re-checked here)
+from pyvc.api import depends  # noqa: E402
+depends(PROPERTY, "C11", ["open_cbin", "open_int16"])      # "a file with the input's sample count": the reader the workers open exposes every complete sample of the recording, whatever the metadata announce and whatever the warning option
